@@ -259,6 +259,10 @@ def handle (op : String) (args : List String) (impl : Impl) : Option Ans :=
       | "mjd_tai" | "mjd_utc" => toUnitF (Dur.add (unitMulF dayF (x - 15020.0)) mjdJ1900) "d"
       | "jde_tai" => toUnitF (toJdeTai (unitMulF dayF (x - 15020.0 - 2400000.5))) "d"
       | "jde_utc" => toUnitF (toJdeUtc (unitMulF dayF (x - 15020.0 - 2400000.5))) "d"
+      -- from_jde_tdb / from_jde_et = from_jde_in_time_scale(x, TDB | ET) (elapsed time in the scale itself, counted from
+      -- J2000), read back by to_jde_tdb_days / to_jde_et_days = (duration + 2415020.5 d + prime offset).to_unit(Day)
+      | "jde_tdb" | "jde_et" =>
+        toUnitF (Dur.add (Dur.add (Dur.sub (unitMulF dayF (x - 15020.0 - 2400000.5)) Hifi.Dyn.etPrimeOffset) jdeJ1900) Hifi.Dyn.etPrimeOffset) "d"
       | "unix_s" => toUnitF (toUnixDur (Dur.add unixRef (unitMulF 1000000000.0 x))) "s"
       | "unix_ms" => toUnitF (toUnixDur (Dur.add unixRef (unitMulF 1000000.0 x))) "ms"
       | _ => none
@@ -275,7 +279,7 @@ def handle (op : String) (args : List String) (impl : Impl) : Option Ans :=
             -- widen by one ns: compare against x ± 1ns by testing three targets
             let floorN : Int := match kind with
               | "mjd_tai" | "mjd_utc" => 15020 * uns * den
-              | "jde_tai" | "jde_utc" => 2415021 * uns * den
+              | "jde_tai" | "jde_utc" | "jde_tdb" | "jde_et" => 2415021 * uns * den
               | _ => den * 1000000000
             let ok := [(-1 : Int), 0, 1].any (fun k => withinUlps f (num * uns + k * den) (den * uns) floorN 5)
             verdict [("read_back_to_float_precision", ok)]
